@@ -126,6 +126,9 @@ void UncompressedFile::write(const char * s, std::streamsize n) {
                 logContainer->filePosition =
                     m_data.back()->uncompressedFileSize +
                     m_data.back()->filePosition;
+            } else {
+                /* all earlier data was dropped: continue at the put position, not at the start of the stream */
+                logContainer->filePosition = m_tellp;
             }
             m_data.push_back(logContainer);
         }
